@@ -26,69 +26,20 @@ Definition wdf (v : str) : nat := match count_words v with Ok n => n | Raise _ =
 Lemma wdf_ok v w : count_words v = Ok w -> w = wdf v.
 Proof. intros H. unfold wdf. rewrite H. reflexivity. Qed.
 
-(* a record of a block list and its (key, unescaped value) pair *)
-Definition valued (r : record) (kv : pykey * str) : Prop :=
-  fst kv = KS (fst (fst r)) /\ props_val (snd (fst r)) = Ok (snd kv).
+(* the Junk entity made of entry x with counter value n *)
+Definition junk_cent (n : nat) (s : str) (x : entry) : @cent pykey str :=
+  mkcent (KS (junk_key n (e_span x))) (text_of s (Some (e_span x))) 0 true
+         (Z.of_nat (fst (e_span x))).
 
-(* ... when the raw value follows the token grammar of C02_unescape_properties *)
-Definition tokenized (r : record) (kv : pykey * str) : Prop :=
-  exists ts, toks_ok ts = true /\ snd (fst r) = render_toks ts /\
-             kv = (KS (fst (fst r)), meaning_toks ts).
-
-Lemma tokenized_valued rs l : Forall2 tokenized rs l -> Forall2 valued rs l.
-Proof.
-  induction 1 as [|r kv rs l (ts & Hok & Hraw & ->) _ IH]; constructor; [|exact IH].
-  split; [reflexivity|]. cbn [snd]. rewrite Hraw. apply unescape_properties. exact Hok.
-Qed.
-
-(* the Junk entities the parse numbers from j on *)
+(* the Junk entities a parse numbers from j on when nothing else advances the counter *)
 Fixpoint junk_cents (j : nat) (s : str) (xs : list entry) : list (@cent pykey str) :=
   match xs with
   | [] => []
-  | x :: xs' =>
-      mkcent (KS (junk_key (S j) (e_span x))) (text_of s (Some (e_span x))) 0 true
-             (Z.of_nat (fst (e_span x))) :: junk_cents (S j) s xs'
+  | x :: xs' => junk_cent (S j) s x :: junk_cents (S j) s xs'
   end.
 
 Lemma text_of_opt s o : text_of s o = opt_text s o.
 Proof. destruct o; reflexivity. Qed.
-
-Lemma text_cents_mixed s : forall es j l,
-  (forall e, In e es -> e_kind e = KEntity \/ e_kind e = KJunk) ->
-  Forall2 valued (map (entity_record s) (filter (is_kind KEntity) es)) l ->
-  exists C, text_cents j s es = Ok (C, j + length (filter (is_kind KJunk) es)) /\
-            Forall2 (ent_of wdf) l (filter (@nonjunkb pykey str) C) /\
-            filter (@c_junk pykey str) C = junk_cents j s (filter (is_kind KJunk) es).
-Proof.
-  induction es as [|e es IH]; intros j l Hk HF.
-  - cbn in HF. inversion HF; subst. exists []. cbn. rewrite Nat.add_0_r. repeat split; constructor.
-  - assert (Hk' : forall x, In x es -> e_kind x = KEntity \/ e_kind x = KJunk)
-      by (intros x Hx; apply Hk; right; exact Hx).
-    destruct (Hk e (or_introl eq_refl)) as [Ee|Ee].
-    + cbn [filter] in HF. unfold is_kind in HF at 1. rewrite Ee in HF. cbn [map] in HF.
-      inversion HF as [|r kv rs l' (Hkey & Hval) HF']; subst.
-      destruct (count_words_total (snd kv)) as [w Hw].
-      destruct (IH j l' Hk' HF') as (C & HC & H1 & H2).
-      exists (mkcent (fst kv) (snd kv) w false (Z.of_nat (fst (e_span e))) :: C).
-      cbn [text_cents]. unfold text_cent. rewrite Ee.
-      unfold entity_record in Hval, Hkey. cbn [fst snd] in Hval, Hkey.
-      rewrite text_of_opt, Hval. cbn [bind]. rewrite Hw. cbn [bind fst snd]. rewrite HC. cbn [bind fst snd].
-      rewrite text_of_opt, <- Hkey.
-      assert (Hnj : is_kind KJunk e = false) by (unfold is_kind; rewrite Ee; reflexivity).
-      cbn [filter]. rewrite Hnj. split; [reflexivity|].
-      cbn [filter nonjunkb c_junk negb]. split; [|exact H2].
-      constructor; [|exact H1]. repeat split. cbn [c_words]. apply wdf_ok. exact Hw.
-    + assert (Hne : is_kind KEntity e = false) by (unfold is_kind; rewrite Ee; reflexivity).
-      cbn [filter] in HF. rewrite Hne in HF.
-      destruct (IH (S j) l Hk' HF) as (C & HC & H1 & H2).
-      exists (mkcent (KS (junk_key (S j) (e_span e))) (text_of s (Some (e_span e))) 0 true
-                     (Z.of_nat (fst (e_span e))) :: C).
-      cbn [text_cents]. unfold text_cent. rewrite Ee. cbn [bind fst snd]. rewrite HC. cbn [bind fst snd].
-      assert (Hj : is_kind KJunk e = true) by (unfold is_kind; rewrite Ee; reflexivity).
-      cbn [filter]. rewrite Hj. cbn [length].
-      split; [f_equal; f_equal; lia|]. cbn [filter nonjunkb c_junk negb junk_cents].
-      split; [exact H1|]. f_equal. exact H2.
-Qed.
 
 Lemma localizable_kinds (es : list entry) e :
   In e (filter is_localizable es) -> e_kind e = KEntity \/ e_kind e = KJunk.
@@ -108,39 +59,112 @@ Proof.
   destruct Hk as [->| ->]; destruct (e_kind e); discriminate.
 Qed.
 
-(* what parse_properties yields for a walk whose entities and junk are known *)
+(* ---- generic in the format ------------------------------------------------------------- *)
+Section Text.
+Context (walkf : str -> result (list entry)) (valf : str -> result str)
+        (bump : str -> entry -> bool).
+
+(* a record (key text, raw value text, comment) and its (key, value) pair *)
+Definition valued (r : record) (kv : pykey * str) : Prop :=
+  fst kv = KS (fst (fst r)) /\ valf (snd (fst r)) = Ok (snd kv).
+
+Lemma text_cents_mixed s : forall es j l,
+  (forall e, In e es -> e_kind e = KEntity \/ e_kind e = KJunk) ->
+  Forall2 valued (map (entity_record s) (filter (is_kind KEntity) es)) l ->
+  exists C j', text_cents valf bump j s es = Ok (C, j') /\
+            Forall2 (ent_of wdf) l (filter (@nonjunkb pykey str) C) /\
+            Forall2 (fun x c => exists n, c = junk_cent n s x)
+                    (filter (is_kind KJunk) es) (filter (@c_junk pykey str) C) /\
+            ((forall e, bump s e = false) ->
+             j' = j + length (filter (is_kind KJunk) es) /\
+             filter (@c_junk pykey str) C = junk_cents j s (filter (is_kind KJunk) es)).
+Proof.
+  induction es as [|e es IH]; intros j l Hk HF.
+  - cbn in HF. inversion HF; subst. exists [], j. cbn. rewrite Nat.add_0_r.
+    repeat split; constructor.
+  - assert (Hk' : forall x, In x es -> e_kind x = KEntity \/ e_kind x = KJunk)
+      by (intros x Hx; apply Hk; right; exact Hx).
+    destruct (Hk e (or_introl eq_refl)) as [Ee|Ee].
+    + cbn [filter] in HF. unfold is_kind in HF at 1. rewrite Ee in HF. cbn [map] in HF.
+      inversion HF as [|r kv rs l' (Hkey & Hval) HF']; subst.
+      destruct (count_words_total (snd kv)) as [w Hw].
+      destruct (IH (if bump s e then S j else j) l' Hk' HF') as (C & j' & HC & H1 & H2 & H3).
+      exists (mkcent (fst kv) (snd kv) w false (Z.of_nat (fst (e_span e))) :: C), j'.
+      cbn [text_cents]. unfold text_cent. rewrite Ee.
+      unfold entity_record in Hval, Hkey. cbn [fst snd] in Hval, Hkey.
+      rewrite text_of_opt, Hval. cbn [bind]. rewrite Hw. cbn [bind fst snd]. rewrite HC. cbn [bind fst snd].
+      rewrite text_of_opt, <- Hkey.
+      assert (Hnj : is_kind KJunk e = false) by (unfold is_kind; rewrite Ee; reflexivity).
+      cbn [filter]. rewrite Hnj. split; [reflexivity|].
+      cbn [filter nonjunkb c_junk negb]. split; [|split; [exact H2|]].
+      * constructor; [|exact H1]. repeat split. cbn [c_words]. apply wdf_ok. exact Hw.
+      * intros Hb. rewrite (Hb e) in H3. exact (H3 Hb).
+    + assert (Hne : is_kind KEntity e = false) by (unfold is_kind; rewrite Ee; reflexivity).
+      cbn [filter] in HF. rewrite Hne in HF.
+      destruct (IH (S j) l Hk' HF) as (C & j' & HC & H1 & H2 & H3).
+      exists (junk_cent (S j) s e :: C), j'.
+      cbn [text_cents]. unfold text_cent. rewrite Ee. cbn [bind fst snd]. rewrite HC. cbn [bind fst snd].
+      assert (Hj : is_kind KJunk e = true) by (unfold is_kind; rewrite Ee; reflexivity).
+      cbn [filter]. rewrite Hj. cbn [length].
+      split; [reflexivity|].
+      assert (Hcj : c_junk (junk_cent (S j) s e) = true) by reflexivity.
+      cbn [filter]. unfold nonjunkb at 1. rewrite Hcj. cbn [negb].
+      split; [exact H1|]. split.
+      * constructor; [exists (S j); reflexivity|exact H2].
+      * intros Hb. destruct (H3 Hb) as [Ej E]. split; [lia|]. cbn [junk_cents]. rewrite E. reflexivity.
+Qed.
+
+(* what parse_text yields for a walk whose entities and junk are known *)
 Lemma parse_of_views s es j l xs :
-  walk_properties s = Ok es ->
+  walkf s = Ok es ->
   Forall2 valued (map (entity_record s) (filter (is_kind KEntity) es)) l ->
   filter (is_kind KJunk) es = xs ->
-  exists C, parse_properties j s = Ok (C, j + length xs) /\
-            reads wdf C l (junk_cents j s xs).
+  exists C j' Jc, parse_text walkf valf bump j s = Ok (C, j') /\ reads wdf C l Jc /\
+            Forall2 (fun x c => exists n, c = junk_cent n s x) xs Jc /\
+            ((forall e, bump s e = false) -> j' = j + length xs /\ Jc = junk_cents j s xs).
 Proof.
-  intros Hw HF Hx. unfold parse_properties. rewrite Hw. cbn [bind].
-  destruct (text_cents_mixed s (filter is_localizable es) j l) as (C & HC & H1 & H2).
+  intros Hw HF Hx. unfold parse_text. rewrite Hw. cbn [bind].
+  destruct (text_cents_mixed s (filter is_localizable es) j l) as (C & j' & HC & H1 & H2 & H3).
   - intros e. apply localizable_kinds.
   - rewrite filter_kind_localizable by auto. exact HF.
-  - rewrite filter_kind_localizable in HC, H2 by auto. rewrite Hx in HC, H2.
-    exists C. split; [exact HC|]. split; assumption.
+  - rewrite filter_kind_localizable in H2, H3 by auto. rewrite Hx in H2, H3.
+    exists C, j', (filter (@c_junk pykey str) C). split; [exact HC|]. split; [split; auto|].
+    split; [exact H2|exact H3].
+Qed.
+
+End Text.
+
+(* ---- .properties ------------------------------------------------------------------------- *)
+(* ... when the raw value follows the token grammar of C02_unescape_properties *)
+Definition tokenized (r : record) (kv : pykey * str) : Prop :=
+  exists ts, toks_ok ts = true /\ snd (fst r) = render_toks ts /\
+             kv = (KS (fst (fst r)), meaning_toks ts).
+
+Lemma tokenized_valued rs l : Forall2 tokenized rs l -> Forall2 (valued props_val) rs l.
+Proof.
+  induction 1 as [|r kv rs l (ts & Hok & Hraw & ->) _ IH]; constructor; [|exact IH].
+  split; [reflexivity|]. cbn [snd]. rewrite Hraw. apply unescape_properties. exact Hok.
 Qed.
 
 (* a file without garbage *)
 Theorem parse_blocks bs l j :
-  Forall legal_block bs -> adjacent_ok bs -> Forall2 valued (records_of bs) l ->
+  Forall legal_block bs -> adjacent_ok bs -> Forall2 (valued props_val) (records_of bs) l ->
   exists C, parse_properties j (file_text bs) = Ok (C, j) /\ reads wdf C l [].
 Proof.
   intros Hl Ha HF.
   destruct (C02_roundtrip_properties_multi bs Hl Ha) as (es & Hw & Hr & _ & Hj).
-  destruct (parse_of_views (file_text bs) es j l [] Hw) as (C & HC & HR); auto.
+  destruct (parse_of_views walk_properties props_val no_bump (file_text bs) es j l [] Hw)
+    as (C & j' & Jc & HC & HR & _ & Hex); auto.
   - rewrite Hr. exact HF.
-  - cbn in HC. rewrite Nat.add_0_r in HC. exists C. auto.
+  - destruct (Hex (fun _ => eq_refl)) as [-> ->]. cbn in HC. rewrite Nat.add_0_r in HC.
+    exists C. auto.
 Qed.
 
 (* a file with one garbage region *)
 Theorem parse_blocks_junk bs1 gl bs2 l j :
   Forall legal_block bs1 -> legal_garbage gl = true -> Forall legal_block bs2 ->
   jadjacent_ok (with_garbage bs1 gl bs2) ->
-  Forall2 valued (records_of bs1 ++ records_of bs2) l ->
+  Forall2 (valued props_val) (records_of bs1 ++ records_of bs2) l ->
   let s := file_text bs1 ++ gtext gl ++ file_text bs2 in
   let p := length (file_text bs1) in
   exists C, parse_properties j s = Ok (C, S j) /\
@@ -150,11 +174,13 @@ Proof.
   intros H1 Hg H2 Ha HF s p.
   destruct (junk_one_region bs1 gl bs2 H1 Hg H2 Ha) as (es & Hw & Hr & _ & Hj & Hs).
   fold s in Hw, Hr, Hs. fold p in Hj, Hs.
-  destruct (parse_of_views s es j l [mk_junk (p, p + length (gtext gl))] Hw)
-    as (C & HC & HR); auto.
+  destruct (parse_of_views walk_properties props_val no_bump s es j l
+              [mk_junk (p, p + length (gtext gl))] Hw) as (C & j' & Jc & HC & HR & _ & Hex); auto.
   - rewrite Hr. exact HF.
-  - exists C. split; [rewrite HC; cbn; f_equal; f_equal; lia|].
-    cbn [junk_cents mk_junk e_span text_of fst snd] in HR. rewrite Hs in HR. exact HR.
+  - destruct (Hex (fun _ => eq_refl)) as [-> ->]. exists C.
+    split; [unfold parse_properties; rewrite HC; cbn; f_equal; f_equal; lia|].
+    unfold junk_cents, junk_cent, mk_junk, text_of in HR. cbn [e_span fst snd] in HR.
+    rewrite Hs in HR. exact HR.
 Qed.
 
 (* ---- the keys of a parse are duplicate-free when the record keys are ------------------ *)
@@ -181,36 +207,35 @@ Proof.
     intros k Hk1 Hk2. apply in_map_iff in Hk2. destruct Hk2 as (j & <- & Hj). exact (Hd j Hj Hk1).
 Qed.
 
-(* ---- end to end ------------------------------------------------------------------------- *)
-Section EndToEnd.
-Context (chk : @cent pykey str -> @cent pykey str -> list finding) (merge : bool) (j0 : nat).
-Context (bsR : list block) (lR lL : lfile (K := pykey) (V := str)).
-Hypothesis HlegR : Forall legal_block bsR.
-Hypothesis HadjR : adjacent_ok bsR.
-Hypothesis HvalR : Forall2 tokenized (records_of bsR) lR.
+(* ---- end to end, generic in the format ------------------------------------------------------ *)
+Section Core.
+Context (walkf : str -> result (list entry)) (valf : str -> result str)
+        (bump : str -> entry -> bool).
+Context (chk : @cent pykey str -> @cent pykey str -> list finding) (merge : bool).
+Context (lR lL : lfile (K := pykey) (V := str)).
 Hypothesis HndR : NoDup (lkeys lR).
 Hypothesis HndL : NoDup (lkeys lL).
 
-Notation report := (fun r : @acc pykey =>
+Definition report (r : @acc pykey) : Prop :=
   a_missings r = missing_keys pykey_eqb lR lL /\
-  stats_fields (a_stats r) = flat_stats pykey_eqb str_eqb py_keyname wdf lR lL).
+  stats_fields (a_stats r) = flat_stats pykey_eqb str_eqb py_keyname wdf lR lL.
 
-Lemma end_to_end_core textL L J :
-  parse_properties j0 textL = Ok (L, j0 + length J) -> reads wdf L lL J ->
+Lemma end_to_end_core textR textL R L J j0 j1 j2 :
+  parse_text walkf valf bump j0 textR = Ok (R, j1) -> reads wdf R lR [] ->
+  parse_text walkf valf bump j1 textL = Ok (L, j2) -> reads wdf L lL J ->
   NoDup (map (@c_key pykey str) J) ->
   (forall j, In j J -> ~ In (c_key j) (lkeys lL)) ->
   (forall j, In j J -> ~ In (c_key j) (lkeys lR)) ->
-  exists r, compare_properties j0 (fun _ => VError) chk merge (file_text bsR) textL = Ok r /\
+  exists r, compare_texts walkf valf bump j0 (fun _ => VError) chk merge textR textL = Ok r /\
             report r /\
             Permutation (filter (@is_njunk pykey) (a_notes r)) (map (fun j => NJunk (c_id j)) J) /\
             ((forall a b, chk a b = []) ->
              summary (fun _ => VError) r =
              length J :: 0 :: flat_stats pykey_eqb str_eqb py_keyname wdf lR lL).
 Proof.
-  intros HpL HrL HJn HJL HJR.
-  destruct (parse_blocks bsR lR j0 HlegR HadjR (tokenized_valued _ _ HvalR)) as (R & HpR & HrR).
+  intros HpR HrR HpL HrL HJn HJL HJR.
   assert (HndLk : NoDup (map (@c_key pykey str) L)) by (eapply reads_NoDup_keys; eauto).
-  unfold compare_properties. rewrite HpR. cbn [bind fst snd]. rewrite HpL. cbn [bind fst snd].
+  unfold compare_texts. rewrite HpR. cbn [bind fst snd]. rewrite HpL. cbn [bind fst snd].
   destruct (flat_no_raise pykey_eqb str_eqb py_keyname wdf pykey_eqb_eq (fun _ => VError) chk merge
                           R L lR HrR) as [r Hr].
   exists r. split; [exact Hr|]. split; [split|split].
@@ -223,21 +248,33 @@ Proof.
   - apply (flat_summary pykey_eqb str_eqb py_keyname wdf pykey_eqb_eq (fun _ => VError) chk merge
              R L J lR lL); auto.
 Qed.
+End Core.
+
+(* ---- .properties ------------------------------------------------------------------------------ *)
+Section EndToEnd.
+Context (chk : @cent pykey str -> @cent pykey str -> list finding) (merge : bool) (j0 : nat).
+Context (bsR : list block) (lR lL : lfile (K := pykey) (V := str)).
+Hypothesis HlegR : Forall legal_block bsR.
+Hypothesis HadjR : adjacent_ok bsR.
+Hypothesis HvalR : Forall2 tokenized (records_of bsR) lR.
+Hypothesis HndR : NoDup (lkeys lR).
+Hypothesis HndL : NoDup (lkeys lL).
 
 (* the localization is a legal block list *)
 Theorem end_to_end_properties (bsL : list block) :
   Forall legal_block bsL -> adjacent_ok bsL -> Forall2 tokenized (records_of bsL) lL ->
   exists r, compare_properties j0 (fun _ => VError) chk merge (file_text bsR) (file_text bsL) = Ok r /\
-            report r /\ filter (@is_njunk pykey) (a_notes r) = [] /\
+            report lR lL r /\ filter (@is_njunk pykey) (a_notes r) = [] /\
             ((forall a b, chk a b = []) ->
              summary (fun _ => VError) r =
              0 :: 0 :: flat_stats pykey_eqb str_eqb py_keyname wdf lR lL).
 Proof.
   intros Hl Ha Hv.
+  destruct (parse_blocks bsR lR j0 HlegR HadjR (tokenized_valued _ _ HvalR)) as (R & HpR & HrR).
   destruct (parse_blocks bsL lL j0 Hl Ha (tokenized_valued _ _ Hv)) as (L & HpL & HrL).
-  destruct (end_to_end_core (file_text bsL) L []) as (r & Hr & Hrep & Hj & Hsum).
-  - cbn. rewrite Nat.add_0_r. exact HpL.
-  - exact HrL.
+  destruct (end_to_end_core walk_properties props_val no_bump chk merge lR lL HndR HndL
+              (file_text bsR) (file_text bsL) R L [] j0 j0 j0 HpR HrR HpL HrL)
+    as (r & Hr & Hrep & Hj & Hsum).
   - constructor.
   - intros j [].
   - intros j [].
@@ -255,7 +292,7 @@ Theorem end_to_end_properties_junk (bs1 : list block) (gl : list str) (bs2 : lis
   let jk := KS (junk_key (S j0) (p, p + length (gtext gl))) in
   ~ In jk (lkeys lR) -> ~ In jk (lkeys lL) ->
   exists r, compare_properties j0 (fun _ => VError) chk merge (file_text bsR) textL = Ok r /\
-            report r /\
+            report lR lL r /\
             filter (@is_njunk pykey) (a_notes r) = [NJunk (Z.of_nat p)] /\
             slice textL p (p + length (gtext gl)) = gtext gl /\
             ((forall a b, chk a b = []) ->
@@ -263,12 +300,13 @@ Theorem end_to_end_properties_junk (bs1 : list block) (gl : list str) (bs2 : lis
              1 :: 0 :: flat_stats pykey_eqb str_eqb py_keyname wdf lR lL).
 Proof.
   intros H1 Hg H2 Ha Hv textL p jk HjR HjL.
+  destruct (parse_blocks bsR lR j0 HlegR HadjR (tokenized_valued _ _ HvalR)) as (R & HpR & HrR).
   destruct (parse_blocks_junk bs1 gl bs2 lL j0 H1 Hg H2 Ha (tokenized_valued _ _ Hv))
     as (L & HpL & HrL). fold textL p in HpL, HrL.
   set (J := [mkcent jk (gtext gl) 0 true (Z.of_nat p)]) in *.
-  destruct (end_to_end_core textL L J) as (r & Hr & Hrep & Hj & Hsum).
-  - cbn [length J]. rewrite HpL. f_equal. f_equal. lia.
-  - exact HrL.
+  destruct (end_to_end_core walk_properties props_val no_bump chk merge lR lL HndR HndL
+              (file_text bsR) textL R L J j0 j0 (S j0) HpR HrR HpL HrL)
+    as (r & Hr & Hrep & Hj & Hsum).
   - repeat constructor. intros [].
   - intros j [<-|[]]. exact HjL.
   - intros j [<-|[]]. exact HjR.
